@@ -464,6 +464,12 @@ func condTerm(t *tb, v ssa.Value) string {
 		if x.Op == token.NEQ {
 			return fmt.Sprintf("!(%s == %s)", t.term(x.X), t.term(x.Y))
 		}
+		// "x > 0" for a value that cannot be negative (a masked byte, an unsigned quantity) is "x != 0"
+		if x.Op == token.GTR {
+			if k, isK := t.constVal(x.Y); isK && k == 0 && t.ubits(x.X) < 64 {
+				return fmt.Sprintf("!(%s == 0)", t.term(x.X))
+			}
+		}
 		return fmt.Sprintf("(%s %s %s)", t.term(x.X), x.Op, t.term(x.Y))
 	case *ssa.UnOp:
 		if x.Op == token.NOT {
